@@ -18,7 +18,13 @@ var Blob16 = Cello(Blob16);
 /* plain structs whose size is not a multiple of the hash function's word: what lies BEHIND the value must not matter */
 struct Blob12 { unsigned char b[12]; }; struct Blob5 { unsigned char b[5]; };
 var Blob12 = Cello(Blob12); var Blob5 = Cello(Blob5);
-static int is_blob(var t) { return t == Blob16 || t == Blob12 || t == Blob5; }
+/* a type that reports its size through a Size instance of its own: 24 bytes, of which the declared struct covers the first 8 */
+#define BLOBS_SIZE 24
+struct BlobS { unsigned char head[8]; };
+static size_t BlobS_Size(void) { return BLOBS_SIZE; }
+var BlobS = Cello(BlobS, Instance(Size, BlobS_Size));
+static int is_blob(var t) { return t == Blob16 || t == Blob12 || t == Blob5 || t == BlobS; }
+static size_t blob_size(var t) { return t == BlobS ? BLOBS_SIZE : t == Blob16 ? 16 : t == Blob12 ? 12 : 5; }   /* known here, not asked of the library */
 static var* keepalive;            /* containers that embed an "elem" instance (also in main's frame) */
 
 static void desc(var o);
@@ -32,7 +38,7 @@ static void desc_scalar(var o) {
     ev_s("["); for (int i = 0; i < 4; i++) { if (i) ev_s(","); ev_i(l[i]); } ev_s("]]"); }
   else if (t == String) { ev_s("[\"S\",["); const char* s = ((struct String*)o)->val; for (size_t i = 0; s[i]; i++) { if (i) ev_s(","); ev_i((unsigned char)s[i]); } ev_s("]]"); }
   else if (t == Type) { ev_s("[\"Y\",["); const char* s = c_str(o); for (size_t i = 0; s[i]; i++) { if (i) ev_s(","); ev_i((unsigned char)s[i]); } ev_s("]]"); }
-  else if (is_blob(t)) { ev_s("[\"X\",["); for (size_t i = 0; i < size(t); i++) { if (i) ev_s(","); ev_i(((unsigned char*)o)[i]); } ev_s("]]"); }
+  else if (is_blob(t)) { ev_s("[\"X\",["); for (size_t i = 0; i < blob_size(t); i++) { if (i) ev_s(","); ev_i(((unsigned char*)o)[i]); } ev_s("]]"); }
   else ev_s("[\"?\",[]]");
 }
 static void desc(var o) {
@@ -72,7 +78,9 @@ int main(int argc, char** argv) {
       else if (k == 'F') { uint64_t b = strtoull(hc_w[3], NULL, 16); double d; memcpy(&d, &b, 8); vals[t] = new(Float, $F(d)); }
       else if (k == 'S') { char buf[4096]; size_t n = hc_unhex(hc_w[3], (unsigned char*)buf, sizeof buf - 1); buf[n] = 0; vals[t] = new(String, $S(buf)); }
       else if (k == 'Y') vals[t] = builtin_type(hc_w[3]);
-      else if (k == 'X') { size_t hl = strlen(hc_w[3]); var bt = hl <= 10 ? Blob5 : hl <= 24 ? Blob12 : Blob16; var b = alloc(bt); hc_unhex(hc_w[3], b, size(bt)); vals[t] = b; }
+      else if (k == 'X') { size_t hl = strlen(hc_w[3]); var bt = hl <= 10 ? Blob5 : hl <= 24 ? Blob12 : hl <= 32 ? Blob16 : BlobS;
+        var b = bt == BlobS ? header_init(calloc(1, sizeof(struct Header) + BLOBS_SIZE), BlobS, AllocStatic) : alloc(bt);
+        hc_unhex(hc_w[3], b, blob_size(bt)); vals[t] = b; }
       else if (k == 'A' || k == 'L' || k == 'U' || k == 'W') {   /* W: a heap Tuple of the objects themselves (one object may appear twice) */
         if (k == 'W') kinds[t] = 'U';
         int n = (int)hc_int(3);
